@@ -34,7 +34,7 @@ FrameRoutesCore == {"to_frame", "to_frame_go", "iloc_all", "getitem_all", "renam
 (* core only; recorded histories may use any of them.                                                                                    *)
 FrameRoutesMore == {"group_labels_first", "group_labels_items_last", "group_first", "group_items_last", "window_first", "window_items_last",
                     "head1", "tail1", "loc_rows", "drop_row", "roll_rows", "shift0", "fillna0", "sort_index", "astype_same", "assign_same",
-                    "from_concat_self", "isna_neg", "mask_row", "dropna", "iter_frame_group_array"}
+                    "from_concat_self", "isna_neg", "mask_row", "dropna", "iter_frame_group_array", "round0", "neg_neg", "clip_wide"}
 FrameRoutes == FrameRoutesCore \cup FrameRoutesMore
 IndexRoutes == {"index_static", "index_go", "copy", "rename", "iloc_all", "sort", "union_self", "deepcopy", "pickle", "to_series"}
 ResultKind(src, route) ==
